@@ -28,6 +28,7 @@ type Result struct {
 	Funcs     []string `json:"-"`
 	Trusted   []string `json:"-"`
 	Kind      string   `json:"kind"`
+	Vacuity   bool     `json:"vacuity,omitempty"`
 	Location  string   `json:"contract"`
 }
 
@@ -39,7 +40,7 @@ type runCfg struct {
 
 // RunHarness generates and discharges the obligation of one harness.
 func RunHarness(p *Program, h *Harness, cfg runCfg) (res *Result) {
-	res = &Result{Oblig: h.Oblig, Props: h.Item.Props, Kind: h.Item.Kind, Location: fmt.Sprintf("%s:%d", h.Item.File, h.Item.Line)}
+	res = &Result{Oblig: h.Oblig, Props: h.Item.Props, Kind: h.Item.Kind, Location: fmt.Sprintf("%s:%d", h.Item.File, h.Item.Line), Vacuity: h.Vacuity}
 	start := time.Now()
 	defer func() {
 		if r := recover(); r != nil {
@@ -114,6 +115,12 @@ func RunHarness(p *Program, h *Harness, cfg runCfg) (res *Result) {
 	}
 	q := c.Query(nil, negGoals, labels)
 	sr := Solve(q, cfg.scratch, h.Oblig, cfg.timeout)
+	if sr.Status == "unknown" && !h.Vacuity {
+		// retry once with four times the budget on every back end before giving up
+		sr2 := Solve(q, cfg.scratch, h.Oblig, 4*cfg.timeout)
+		sr2.Millis += sr.Millis
+		sr = sr2
+	}
 	res.Solver = sr.Solver
 	res.Millis = sr.Millis
 	res.Query = filepath.Join(cfg.scratch, sanitizeFile(h.Oblig)+".smt2")
